@@ -9,7 +9,8 @@
    run reporting completion leaves no attractor unserved (expand_block_one_to_one, expand_aseeds_one_to_one), under
    the contract of the recorded tape -- every block reported clean has no motif-avoidant attractor
    (BlockMath.block_clean), every NFVS hits every negative cycle -- which the extracted LogChecks predicates
-   decide on every replayed run.  PARTIAL: the source-SCC strategy is not modelled and has the known finding D15.
+   decide on every replayed run.  The source-SCC strategy is modelled (SCC.v) and replayed id by id against expand_scc, but the
+   clause fails for it: KNOWN FINDING D15, formally D15_refuted (two different expanded nodes own one attractor).
 
    This file contains only restatements closed by `exact` (statements produced by Coq's own
    `Check` of the library lemma) plus non-vacuity Examples, each followed by Print Assumptions. *)
@@ -18,7 +19,7 @@ Import ListNotations.
 From BB Require Import BN Brute SpaceFacts TrapFacts PercolateFacts AttractorFacts Diagram Invariants Checks Filter
   Strict PetriNet Control Meta FilterFacts PetriNetFacts TrappistFacts DiagramStruct DiagramSem1 DiagramCache
   DiagramDepth DiagramComplete Termination ControlFacts MetaFacts Candidates StrictFacts MinExpandFacts CandidatesFacts SymbolicTest SymbolicTestFacts Signed ReductionFacts ControlFacts2 Main Blocks BlocksFacts ObsFacts OwnerFacts CandidatesTerm
-  PartialOwner BlockMath BlockComplete ASeeds ASeedsFacts LogChecks SkipRule SkipRuleFacts Names NamesFacts Perm PermFacts.
+  PartialOwner BlockMath BlockComplete ASeeds ASeedsFacts LogChecks SkipRule SkipRuleFacts Names NamesFacts Perm PermFacts SCC SCCFacts.
 
 (* given covering candidates, the filter returns exactly one seed per attractor of the node, and the sets are the attractors *)
 Theorem C01_filter_exact : forall (N : net) (S : space) (motifs : list space) (cands seeds : list state) (sets : list (list state)), trap_space N S -> (forall M : space, In M motifs -> trap_space N M /\ subspace M S = true) -> NoDup cands -> (forall c : state, In c cands -> in_space c S = true) -> covers N S motifs cands -> compute_attractors_filter N false motifs cands = (seeds, Some sets) -> one_to_one N S motifs seeds /\ length sets = length seeds /\ (forall (i : nat) (s : state) (X : list state), nth_error seeds i = Some s -> nth_error sets i = Some X -> forall t : state, In t X <-> reach N s t).
@@ -125,6 +126,13 @@ Proof. exact expand_aseeds_one_to_one. Qed.
 Theorem C01_nfvs_log_check_exact : forall (N : net) (lg : list (list (option bool) * list nat)), (forall (sp : list (option bool)) (nfvs : list nat), In (sp, nfvs) lg -> length sp = nvars N) -> nfvs_log_ok_b N lg = true <-> nfvs_log_ok N lg.
 Proof. exact nfvs_log_ok_b_spec. Qed.
 
+(* KNOWN FINDING D15: in the diagram the source-SCC strategy builds for a 6-variable network two expanded nodes own the same attractor *)
+Theorem C01_scc_strategy_refuted : exists (A : state -> Prop) (i j : nat), i <> j /\ attractor d15_net A /\ owns_exp d15_net d15_diagram i A /\ owns_exp d15_net d15_diagram j A.
+Proof. exact D15_refuted. Qed.
+
+Theorem C01_scc_witness_facts : snd d15_run = RBool true /\ size d15_diagram = 7 /\ map n_space (sd_nodes d15_diagram) = [[None; None; None; None; None; None]; [Some false; Some true; None; None; Some true; None]; [None; None; None; None; None; Some true]; [Some false; Some true; Some false; Some true; Some true; None]; [Some false; Some true; Some false; Some true; Some true; Some false]; [Some false; Some true; Some false; Some true; Some true; Some true]; [Some false; Some true; None; None; Some true; Some true]] /\ existsb (fun L : list state => owns_b d15_net d15_diagram 1 L && owns_b d15_net d15_diagram 6 L) (attractors_b d15_net) = true.
+Proof. exact d15_facts. Qed.
+
 (* non-vacuity: two bistable switches; x0'=x1, x1'=x0, x2'=x3, x3'=x2 *)
 Definition ex_sw : net := [fun s => nth 1 s false; fun s => nth 0 s false; fun s => nth 3 s false; fun s => nth 2 s false].
 Definition ex_cfg : config := {| max_motifs := 1000 |}.
@@ -172,3 +180,5 @@ Print Assumptions C01_pruned_successor_hides_nothing.
 Print Assumptions C01_aseeds_expansion_attractors_served.
 Print Assumptions C01_aseeds_expansion_one_to_one.
 Print Assumptions C01_nfvs_log_check_exact.
+Print Assumptions C01_scc_strategy_refuted.
+Print Assumptions C01_scc_witness_facts.
